@@ -659,6 +659,12 @@ func runC08(c *Ctx) error {
 		"nested schedules): reports filed by position per file vs the lone run of the file on a fresh engine with its own context; race-detector log parsed; a case is non-trivial when at least two goroutines overlap on a name / file " +
 		"and distinct by its inputs"
 
+	// 0. what one insertion puts into the engine-wide package cache (c08_pkgcache.go)
+	if err := runC08PkgCache(c); err != nil {
+		return err
+	}
+	res.Rule += "; package cache: sequences of AddCachedPackage on synthetic package graphs (complete / incomplete packages) vs {inserted} ∪ {complete packages reachable through complete packages}"
+
 	// 1. static half
 	ans, err := c.Drv.Ask([]string{"locktable", "writesites"})
 	if err != nil {
